@@ -670,8 +670,22 @@ def d2_partial_eval(ctx: Ctx):
     for m in ('_visit_while', '_visit_for'):
         f = ctx.fn(PE, f'_PartialEvalInstance.{m}')
         ks = [k for k in calls_in(f) if call_name(k) == 'self._loop_fixpoint']
-        ok = len(ks) == 1 and norm(ks[0].args[0]) == 'stmt' and 'self._visit_block(stmt.body, ctx)' in norm(ks[0].args[1])
+        # what one pass of the fixpoint reads: a lambda, or a local function handed over by name
+        one_pass = None
+        if len(ks) == 1 and len(ks[0].args) == 2:
+            one_pass = ks[0].args[1]
+            if isinstance(one_pass, ast.Name):
+                one_pass = next((s for s in f.body if isinstance(s, ast.FunctionDef) and s.name == one_pass.id), None)
+        reads = [norm(k) for k in calls_in(one_pass)] if one_pass is not None else []
+        ok = len(ks) == 1 and norm(ks[0].args[0]) == 'stmt' and 'self._visit_block(stmt.body, ctx)' in reads
         ctx.check(ok, PE, f, f'_PartialEvalInstance.{m}', 'the loop body is read under the fixpoint of this statement\'s phis', f'got {[norm(k) for k in ks]}')
+        if m == '_visit_while':
+            # the condition reads the header phis too: it belongs to the pass, and nowhere else
+            outside = [k for k in calls_in(f) if norm(k) == 'self._visit_expr(stmt.cond, ctx)' and not (one_pass is not None and any(x is k for x in ast.walk(one_pass)))]
+            ok = ok and 'self._visit_expr(stmt.cond, ctx)' in reads
+            ctx.check(ok and not outside, PE, f, '_PartialEvalInstance._visit_while', 'the loop condition is read on every pass of the fixpoint, with the phis of that pass',
+                      'the condition is read once ahead of the fixpoint: in a loop nested in another one it sees the phis as the enclosing loop\'s previous pass left them, '
+                      'and `while t < y + 1` is folded to `while t < 1`')
     f = ctx.fn(PE, '_PartialEvalInstance._visit_assign')
     t = norm(f, 3000)
     ctx.check('else: self._clear_binding(stmt, stmt.target)' in t, PE, f, '_PartialEvalInstance._visit_assign',
@@ -1333,6 +1347,7 @@ RULES = [
     Rule('C13.T1', 'value-class transfer and refinement tables cover IEEE behaviour on every class combination', t1_value_class_tables, 9, 'T'),
     Rule('C13.X1', 'value-class defaults are conservative (unknown scope, pass-through operations, targets, parameters)', x1_conservative_defaults, 24, 'X'),
     Rule('C13.G1', 'a list value is reported constant only with a store-or-alias fact', g1_heap_constants, 1, 'G'),
+    Rule('C13.G3', 'a constant is computed only under a statically known, non-stochastic context (= C07.G4)', lambda ctx: __import__('sa.props.c07', fromlist=['g4_fold_context']).g4_fold_context(ctx), 11, 'G'),
     Rule('C13.G2', 'array sizes are constrained globally only where every execution passes', g2_size_facts_unconditional, 15, 'G'),
     Rule('C13.X2', 'every list-sharing construct has an alias route; anything unmodelled escapes its operands', x2_alias_routes, 36, 'X'),
 ]
@@ -1340,6 +1355,14 @@ RULES = [
 from ..selftest import Mutant  # noqa: E402
 
 MUTANTS = [
+    Mutant('one-draw-reported-constant', PE, "        if ctx.is_stochastic():\n            return None\n        try:", "        try:", 'C13.G3',
+           'finding F74 before its repair'),
+    Mutant('while-condition-read-ahead-of-the-fixpoint', PE, "            self._visit_expr(stmt.cond, ctx)\n            self._visit_block(stmt.body, ctx)\n\n        self._loop_fixpoint(stmt, run_pass)",
+           "            self._visit_block(stmt.body, ctx)\n\n        self._visit_expr(stmt.cond, ctx)\n        self._loop_fixpoint(stmt, run_pass)", 'C13.D2',
+           'finding F73 before its repair: an inner `while t < y + 1` is folded to `while t < 1`'),
+    Mutant('while-condition-read-after-the-body', PE, "            self._visit_expr(stmt.cond, ctx)\n            self._visit_block(stmt.body, ctx)\n\n        self._loop_fixpoint(stmt, run_pass)",
+           "            self._visit_block(stmt.body, ctx)\n            self._visit_expr(stmt.cond, ctx)\n\n        self._loop_fixpoint(stmt, run_pass)", 'C13.D2',
+           'within one pass the phis are the same before and after the body', expect='silent'),
     Mutant('lists-compared-over-the-common-prefix', PE, "            type(a) is type(b) and len(a) == len(b)\n            and all(", "            type(a) is type(b)\n            and all(", 'C13.D2',
            'seeded change C13d: `[1.0]` and `[1.0, 2.0]` merge into the constant `[1.0]`'),
     Mutant('list-and-tuple-one-constant', PE, "            type(a) is type(b) and len(a) == len(b)\n            and all(", "            len(a) == len(b)\n            and all(", 'C13.D2'),
